@@ -170,7 +170,7 @@ func RunPipeline(seed int64, tier, driver, outDir string, n int, search bool, co
 		}
 	}
 	failSeen := map[string]bool{}
-	pushes, replies, syncs, reorders, drops, climuts, cuts, windows, qchecks, lost := 0, 0, 0, 0, 0, 0, 0, 0, 0, 0
+	pushes, replies, syncs, reorders, drops, climuts, cuts, windows, qchecks, lost, rewr := 0, 0, 0, 0, 0, 0, 0, 0, 0, 0, 0
 	for i, run := range runs {
 		c := cases[i]
 		res.Cases++
@@ -182,6 +182,7 @@ func RunPipeline(seed int64, tier, driver, outDir string, n int, search bool, co
 		drops += run.SyncDrops
 		windows += run.SyncWindows
 		lost += run.LostInFlight
+		rewr += run.CalledRewritten
 		qchecks += run.QuiescentChecks
 		climuts += run.CliMuts
 		cuts += run.Cuts
@@ -237,7 +238,7 @@ func RunPipeline(seed int64, tier, driver, outDir string, n int, search bool, co
 			res.Failures = append(res.Failures, core.FailRec{Prop: "C09", Msg: msg, File: file})
 		}
 	}
-	res.Extra = map[string]any{"pushes": pushes, "replies": replies, "full_syncs": syncs, "sync_answers_dropped": drops, "client_mutations_judged": climuts, "connection_cuts": cuts, "out_of_order_deliveries": reorders, "sync_answer_windows": windows, "quiescent_moments_judged": qchecks, "replies_lost_with_a_dropped_connection": lost}
+	res.Extra = map[string]any{"pushes": pushes, "replies": replies, "full_syncs": syncs, "sync_answers_dropped": drops, "client_mutations_judged": climuts, "connection_cuts": cuts, "out_of_order_deliveries": reorders, "sync_answer_windows": windows, "quiescent_moments_judged": qchecks, "replies_lost_with_a_dropped_connection": lost, "observation_scenarios_where_the_rpc_tracer_rewrote_mutation_called": rewr}
 	res.WallS = time.Since(t0).Seconds()
 	return res
 }
